@@ -275,8 +275,9 @@ class Canon(object):
         if not r:
             return None
         d = self.docs(r)
-        d.update(type=self.ty(r.type), transfer=_s(r.transfer), nullable=bool(r.nullable and not r.not_nullable),
-                 skip=bool(r.skip))
+        # a skipped return value is always written with transfer-ownership (mandatory in the GIR): 'none' when unset
+        d.update(type=self.ty(r.type), transfer=_s(r.transfer) or ('none' if r.skip else None),
+                 nullable=bool(r.nullable and not r.not_nullable), skip=bool(r.skip))
         return d
 
     def callable(self, f, tag):
@@ -322,7 +323,7 @@ class Canon(object):
             if isinstance(an, ast.Callback):
                 d = self.docs(f)
                 d.update(k='field-callback', name=f.name, introspectable=bool(f.introspectable) and not f.skip,
-                         deprecated=_s(f.deprecated), stability=_s(f.stability),
+                         version=_s(f.version), deprecated=_s(f.deprecated), stability=_s(f.stability),
                          callback=self.callable(an, 'callback'))
                 return d
             return {'k': 'field-anon', 'node': self.node(an)}
@@ -413,7 +414,7 @@ class Canon(object):
                      static_methods=self.functions(n.static_methods, 'static'))
             return d
         if isinstance(n, ast.Alias):
-            d = self.node_generic(n, version=False)
+            d = self.node_generic(n)
             d.update(k='alias', name=n.name, ctype=n.ctype, target=self.ty(n.target))
             return d
         if isinstance(n, ast.Constant):
